@@ -56,6 +56,9 @@ func (v *Verifier) callCommon(s *State, c *ssa.CallCommon, fv *Value, args []*Va
 	if b, ok := c.Value.(*ssa.Builtin); ok {
 		return v.callBuiltin(s, b, c, args, pos, instr)
 	}
+	// goroutines started on this path run concurrently: at every call (the points where this goroutine may block or
+	// synchronise) whatever they can write is unknown
+	v.interference(s)
 	var callee *ssa.Function
 	var clo *Closure
 	fullArgs := args
@@ -466,6 +469,13 @@ func (v *Verifier) applyContractNamed(s *State, fc *FuncContract, sig *types.Sig
 				continue
 			}
 			v.addOb(s, "pre", pos, ev.boolExpr(c.Expr), name+" requires "+c.Text, c.Props)
+		}
+	}
+	// a callee that receives a closure may run it any number of times: whatever the closure can write (captured
+	// variables of the caller included) is unknown afterwards, whatever the callee's own frame says
+	for _, a := range args {
+		if a != nil && a.Clo != nil && a.Clo.Fn != nil && a.Clo.Fn.Blocks != nil && !fc.DeferredFuncs {
+			v.havocBySummary(s, a.Clo.Fn, "Hcb!", true)
 		}
 	}
 	// frame
@@ -1019,7 +1029,54 @@ func (v *Verifier) execGo(s *State, t *ssa.Go) {
 	if f := c.StaticCallee(); f != nil {
 		name = funcRef(f)
 	}
-	v.assumptions["goroutine "+name+" started in "+funcRef(s.frame.fn)+": body not executed in this context"] = true
+	v.assumptions["goroutine "+name+" started in "+funcRef(s.frame.fn)+": body not executed in this context; its writes are unknown to the spawner from here on (re-havoc'd at every later call and channel operation)"] = true
+	// the function the goroutine runs, and closures it holds in captured variables (wg.Go(f), eg.Go(f) wrappers)
+	var fns []*ssa.Function
+	seenFn := map[*ssa.Function]bool{}
+	var addClo func(clo *Closure)
+	addClo = func(clo *Closure) {
+		if clo == nil || clo.Fn == nil || seenFn[clo.Fn] {
+			return
+		}
+		seenFn[clo.Fn] = true
+		fns = append(fns, clo.Fn)
+		for i, b := range clo.Binds {
+			if i >= len(clo.Fn.FreeVars) || b == nil || b.L[0] == nil {
+				continue
+			}
+			et := clo.Fn.FreeVars[i].Type().(*types.Pointer).Elem()
+			if _, isFn := under(et).(*types.Signature); isFn {
+				var val *Value
+				if b.LV != nil {
+					val = s.load(b.LV)
+				} else {
+					val = s.loadPtr(b.term(), et)
+				}
+				if val != nil {
+					addClo(val.Clo)
+				}
+			}
+		}
+	}
+	if f := c.StaticCallee(); f != nil && f.Blocks != nil {
+		if !seenFn[f] {
+			seenFn[f] = true
+			fns = append(fns, f)
+		}
+		// closures passed as arguments of the goroutine
+		for _, a := range c.Args {
+			if av := v.regOrNil(s, a); av != nil {
+				addClo(av.Clo)
+			}
+		}
+	}
+	if fv := v.regOrNil(s, c.Value); fv != nil {
+		addClo(fv.Clo)
+	}
+	for _, f := range fns {
+		s.spawned = append(s.spawned[:len(s.spawned):len(s.spawned)], f)
+	}
+	v.interference(s)
 	if ch := v.latchOfGo(s, t); ch != nil {
 		h := s.heapArr("chan#running", runningSort)
 		s.heap["chan#running"] = Store(h, ch, True)
@@ -1040,7 +1097,26 @@ func (v *Verifier) execGo(s *State, t *ssa.Go) {
 	}
 }
 
+// interference: the goroutines started on this path may have written whatever their bodies can write.
+func (v *Verifier) interference(s *State) {
+	if len(s.spawned) == 0 || v.noInterference > 0 {
+		return
+	}
+	if len(s.held) > 0 {
+		// inside a critical section the state read under the lock is taken to be stable (heap arrays are havoc'd as a
+		// whole, which would also forget data the held lock protects); interference resumes after the unlock
+		v.assumptions["goroutine interference is not applied while a lock is held"] = true
+		return
+	}
+	v.noInterference++
+	for _, f := range s.spawned {
+		v.havocBySummary(s, f, "Hgo!", true)
+	}
+	v.noInterference--
+}
+
 func (v *Verifier) execSelect(s *State, t *ssa.Select) {
+	v.interference(s)
 	tt := t.Type().(*types.Tuple)
 	r := &Value{T: tt}
 	idx := Fresh("select!idx", SInt)
@@ -1067,6 +1143,7 @@ func (v *Verifier) execSelect(s *State, t *ssa.Select) {
 }
 
 func (v *Verifier) execRecv(s *State, t *ssa.UnOp, ch *Value) {
+	v.interference(s)
 	v.onRecv(s, ch, True)
 	et := under(ch.T).(*types.Chan).Elem()
 	val := freshValue("recv", et)
@@ -1222,6 +1299,17 @@ func (v *Verifier) collectMods(ins ssa.Instruction, cells map[*ssa.Alloc]bool, h
 				heap["chan#closed"] = ArrSort(SInt, SBool)
 			}
 			return
+		}
+		// a call that is handed a func value may run it: closures created in this function may be that value
+		for _, a := range c.Args {
+			if _, isFn := under(a.Type()).(*types.Signature); isFn {
+				if fn := ins.Parent(); fn != nil {
+					for _, anon := range fn.AnonFuncs {
+						v.modsetInto(anon, cells, heap, visiting)
+					}
+				}
+				break
+			}
 		}
 		var callee *ssa.Function
 		if !c.IsInvoke() {
